@@ -1,9 +1,16 @@
 """C14 — the shipped pipeline matches the library; runs do not influence each other.
 
 Three streams (DESIGN.md §6 C14):
-  (a) property oracle, no model: the real `naija` binary (script file, --eval, stdin via `-`)
-      against the library pipeline wired with separate arenas inside the harness
-      (`nsverif pipeline lib`): stdout bytes, exit status, status 0 iff no error diagnostic;
+  (a) property oracle, no model: the real `naija` binary against the library pipeline wired with
+      separate arenas inside the harness (`nsverif pipeline lib`): stdout bytes, exit status,
+      status 0 iff no error diagnostic.  Input modes: script file, --eval, stdin via `-` fed by
+      one write, by a redirected file (full read blocks) and by a pipe written in pieces cut inside
+      multi-byte characters.  Besides random programs (2-/3-/4-byte characters included): scripts
+      sized around every multiple of run_stdin's read block (size read from the source) with a
+      character at every offset across the boundary, CRLF / no final newline; the same places with
+      bytes that are not UTF-8 (every mode must refuse); one program per path through run_source,
+      including "the resolver leaves no optimisation plan" (just over an analysis cap); programs
+      with tiny live data and about three arena capacities of per-iteration garbage;
   (b) property oracle, no model: an in-process replica of wasm/src/lib.rs run_source
       (`nsverif pipeline wasm`; borrows, conflict arguments, arena roles and drop points are
       executed as read from the current source, the phase skeleton is fixed and cross-checked
@@ -32,6 +39,7 @@ TRUSTED_EXTRA = [
     "C14: translator/gen_scratch.py (regex + brace-depth reading of main.rs / cmd.rs run_source / wasm lib.rs run_source / scratch.rs / the reset sites of runtime.rs into GenWiring.v)",
     "C14: the wasm crate is cfg(target_family=\"wasm\") only and needs wasm-bindgen, so its entry point is executed inside the harness by a scripted replica: the borrows, their conflict arguments, the arena handed to each phase and the drop points come from the script read out of the current wasm/src/lib.rs; the phase skeleton (stop on any parse diagnostic / resolver error / runtime error, join the output) is fixed in the harness and cross-checked against a literal copy of run_source; ansi_to_html::convert is replaced by the identity",
     "C14: commit/decommit system calls modelled as always succeeding; ExitCode::SUCCESS/FAILURE are 0/1 (unix)",
+    "C14: theories/CliInput.v models run_stdin as 'append blocks, validate the whole buffer' only because the translator found that shape (flag cli_stdin_validates_whole_buffer); fs::read_to_string / String arguments are modelled as 'the bytes if valid UTF-8'; read(2) is modelled as returning arbitrary non-empty pieces of the input in order",
     "C14: for a run that ends with the stack-overflow diagnostic only the bytes up to the diagnostic's header are compared between naija and the harness (the expression at which the native-stack budget trips depends on each executable's frame sizes)",
 ]
 ASSUMPTIONS = [
@@ -56,7 +64,8 @@ def unhx(h):
 # ------------------------------------------------------------------------------------------
 # program generator
 
-WORDS = ["ada", "Bola", "chi", " pad ", "Zed9", "o", "naija", "wahala-", "e dey", "x_y"]
+WORDS = ["ada", "Bola", "chi", " pad ", "Zed9", "o", "naija", "wahala-", "e dey", "x_y",
+         "caf\u00e9", "\u65e5\u672c", "\U0001f600ok", "na\u00efja "]     # 2-, 3- and 4-byte characters too
 
 
 class ProgGen:
@@ -405,25 +414,95 @@ def run_lib(env, name, progs, limit=None):
     return parse_lib_records(outp), (out if rc else "")
 
 
-def run_cli(mode, src, workdir, tag, release=False, limit=25):
-    """Returns (filename shown in diagnostics, rc, stdout bytes, stderr bytes)."""
+def gen_scratch_module():
+    """translator/gen_scratch.py as a module reading the tree under test (called directly: the
+    generated GenWiring.v is shared with checks that may run against another tree)."""
+    import importlib.util
+    spec = importlib.util.spec_from_file_location("gen_scratch", os.path.join(common.VERIF, "translator", "gen_scratch.py"))
+    gs = importlib.util.module_from_spec(spec)
+    spec.loader.exec_module(gs)
+    gs.REPO = common.REPO
+    return gs
+
+
+def pipe_feed(p, data, cuts):
+    """Writes data to p.stdin in the pieces given by the cut offsets; after each piece waits until
+    the reader has taken everything out of the pipe (FIONREAD on the write end), so that every
+    piece really arrives as (at least) one separate read()."""
+    import fcntl
+    import struct
+    import termios
+    import time
+    pos = 0
+    try:
+        for c in sorted(set(c for c in cuts if 0 < c < len(data))) + [len(data)]:
+            p.stdin.write(data[pos:c])
+            p.stdin.flush()
+            pos = c
+            t0 = time.time()
+            while time.time() - t0 < 2.0:
+                n = struct.unpack("i", fcntl.ioctl(p.stdin.fileno(), termios.FIONREAD, b"\0\0\0\0"))[0]
+                if n == 0 or p.poll() is not None:
+                    break
+                time.sleep(0.0003)
+        p.stdin.close()
+    except (BrokenPipeError, OSError):
+        try:
+            p.stdin.close()
+        except OSError:
+            pass
+
+
+def run_cli(mode, src, workdir, tag, release=False, limit=25, cuts=None):
+    """Modes: file | eval | stdin (one write into a pipe) | redirect (`naija - < file`) | pipe (small
+    writes cut at `cuts`).  src is text or raw bytes.  Returns (filename shown in diagnostics, rc,
+    stdout bytes, stderr bytes)."""
     exe = common.naija_bin(release)
     e = dict(os.environ)
     e.pop("RUST_BACKTRACE", None)
+    data = src.encode() if isinstance(src, str) else src
     try:
-        if mode == "file":
+        if mode in ("file", "redirect"):
             path = os.path.join(workdir, "p_%s.ns" % tag)
-            with open(path, "w") as f:
-                f.write(src)
-            p = subprocess.run([exe, path], stdin=subprocess.DEVNULL, capture_output=True, timeout=limit, env=e)
-            return path, p.returncode, p.stdout, p.stderr
+            with open(path, "wb") as f:
+                f.write(data)
+            if mode == "file":
+                p = subprocess.run([exe, path], stdin=subprocess.DEVNULL, capture_output=True, timeout=limit, env=e)
+                return path, p.returncode, p.stdout, p.stderr
+            with open(path, "rb") as f:
+                p = subprocess.run([exe, "-"], stdin=f, capture_output=True, timeout=limit, env=e)
+            return "<stdin>", p.returncode, p.stdout, p.stderr
         if mode == "eval":
-            p = subprocess.run([exe, "--eval", src], stdin=subprocess.DEVNULL, capture_output=True, timeout=limit, env=e)
+            p = subprocess.run([exe, "--eval", data], stdin=subprocess.DEVNULL, capture_output=True, timeout=limit, env=e)
             return "<eval>", p.returncode, p.stdout, p.stderr
-        p = subprocess.run([exe, "-"], input=src.encode(), capture_output=True, timeout=limit, env=e)
+        if mode == "pipe":
+            p = subprocess.Popen([exe, "-"], stdin=subprocess.PIPE, stdout=subprocess.PIPE, stderr=subprocess.PIPE, env=e)
+            pipe_feed(p, data, cuts or [])
+            try:
+                p.stdin = None
+                so, se = p.communicate(timeout=limit)
+            except subprocess.TimeoutExpired:
+                p.kill()
+                p.communicate()
+                return None, 124, b"", b"[timeout]"
+            return "<stdin>", p.returncode, so, se
+        p = subprocess.run([exe, "-"], input=data, capture_output=True, timeout=limit, env=e)
         return "<stdin>", p.returncode, p.stdout, p.stderr
     except subprocess.TimeoutExpired:
         return None, 124, b"", b"[timeout]"
+    except OSError as ex:                      # E2BIG for --eval above the kernel's argument size limit
+        return None, 124, b"", ("[not run: %s]" % ex).encode()
+
+
+EVAL_MAX = 120000        # a single argv string is limited to 128 KiB by the kernel
+
+
+def multibyte_cut(data):
+    """An offset inside the first multi-byte character of data (None if it is pure ASCII)."""
+    for i, b in enumerate(data):
+        if b >= 0xC0:
+            return i + 1
+    return None
 
 
 MODES = ("file", "eval", "stdin")
@@ -470,6 +549,26 @@ def judge_cli(rec, mode, fname, rc, so, se):
     return "ok", ""
 
 
+# (no plan always comes with the cap warning, a prune always with an unused-... warning)
+ALL_PATHS = ["parse-diagnostic", "resolve-error", "run:plan-empty",
+             "run:no-plan+warnings", "run:plan-empty+warnings", "run:plan-prunes+warnings", "runtime-error"]
+
+
+def run_source_path(rec):
+    """Which way the program goes through run_source (from the library record)."""
+    if rec.get("crash"):
+        return "crash"
+    if rec["phase"] == "parse":
+        return "parse-diagnostic"
+    if rec["phase"] == "resolve":
+        return "resolve-error"
+    if rec["phase"] == "run":
+        return "runtime-error"
+    plan = rec.get("plan", "?")
+    cls = "no-plan" if plan == "none" else ("plan-empty" if plan == "some:0:0" else "plan-prunes")
+    return "run:" + cls + ("+warnings" if int(rec["warns"]) > 0 else "")
+
+
 def lib_record_consistent(rec):
     """Runtime.output (read after the run) against what was printed while running."""
     if rec.get("crash"):
@@ -479,21 +578,38 @@ def lib_record_consistent(rec):
     return unhx(rec["printed"]) == unhx(rec["pre"]) + mid + unhx(rec["post"])
 
 
-def stream_cli(env, progs, res, searching):
+def stream_cli(env, progs, res, searching, extra_cuts=None):
     recs, err = run_lib(env, "lib", [(str(i), src) for i, (_, src) in enumerate(progs)])
     if err:
         res["disagreements"].append({"stream": "cli-vs-library", "error": "library harness failed: " + err[-400:]})
         return {}
-    jobs = [(i, m) for i in range(len(progs)) for m in MODES]
+    jobs = []
+    cuts_of = {}
+    for i, (kind, src) in enumerate(progs):
+        data = src.encode()
+        for m in MODES:
+            if m == "eval" and len(data) > EVAL_MAX:
+                continue
+            jobs.append((i, m))
+        # the other ways a script reaches standard input: a redirected file (full read blocks) and a
+        # pipe fed with small writes, cut inside a multi-byte character when there is one
+        jobs.append((i, "redirect"))
+        mb = multibyte_cut(data)
+        extra = (extra_cuts or {}).get(i)
+        if extra is not None or mb is not None or i % 3 == 0:
+            cuts_of[i] = list(extra or []) + ([mb] if mb is not None else []) + [env.rng.randint(1, max(len(data) - 1, 1))]
+            jobs.append((i, "pipe"))
     wd = os.path.join(env.work, "cli")
     os.makedirs(wd, exist_ok=True)
 
     def one(job):
         i, m = job
-        return job, run_cli(m, progs[i][1], wd, "%d" % i)
+        return job, run_cli(m, progs[i][1], wd, "%d_%s" % (i, m[0]), cuts=cuts_of.get(i))
 
     stats = {"ok": 0, "both-crash": 0, "inconclusive": 0, "fail": 0}
     phases = {}
+    paths = {}
+    modes_run = {}
     with ThreadPoolExecutor(max_workers=8) as ex:
         results = list(ex.map(one, jobs))
     for (i, m), (fname, rc, so, se) in results:
@@ -505,9 +621,12 @@ def stream_cli(env, progs, res, searching):
         res["evaluations"] += 1
         v, detail = judge_cli(rec, m, fname or "", rc, so, se)
         stats[v] += 1
+        modes_run[m] = modes_run.get(m, 0) + 1
         if m == "file":
             ph = rec.get("phase", rec.get("crash"))
             phases[ph] = phases.get(ph, 0) + 1
+            pth = run_source_path(rec)
+            paths[pth] = paths.get(pth, 0) + 1
             if not lib_record_consistent(rec):
                 res["failures"].append({
                     "key": "output-record:" + common.chash(src), "stream": "library-output-record", "case": {"src": src, "kind": kind},
@@ -517,24 +636,28 @@ def stream_cli(env, progs, res, searching):
             n_fail = sum(1 for f in res["failures"] if f.get("stream") == "cli-vs-library")
             if n_fail >= 6:
                 continue                      # counted in cli_verdicts; a handful of concrete cases is enough
-            small = shrink_program(env, src, m) if n_fail == 0 else src
+            small = shrink_program(env, src, m) if (n_fail == 0 and m in MODES) else src
             res["failures"].append({"key": "cli-vs-lib:" + common.chash(small), "stream": "cli-vs-library",
-                                    "case": {"src": small, "mode": m, "kind": kind}, "observed": detail})
+                                    "case": {"src": small, "mode": m, "kind": kind, "cuts": cuts_of.get(i) if m == "pipe" else None},
+                                    "observed": detail})
         elif v == "ok":
             if rec["phase"] in ("ok", "run") and int(rec["nout"]) + int(rec["errs"]) > 0:
                 res["_nontrivial"].add("cli:" + common.chash(src))
             if len(res["samples"]) < 2 and len(src) < 200 and m == "eval":
                 res["samples"].append({"src": src, "mode": m, "status": rc, "stdout": so.decode("utf-8", "replace")[:200]})
     res["extra"]["cli_verdicts"] = stats
+    res["extra"]["cli_modes"] = modes_run
     res["extra"]["library_phase_histogram"] = phases
+    res["extra"]["run_source_paths"] = paths
+    res["extra"]["run_source_paths_not_exercised"] = sorted(set(ALL_PATHS) - set(paths))
     return recs
 
 
-def check_one_program(env, src, mode, limit=None):
+def check_one_program(env, src, mode, limit=None, cuts=None):
     recs, err = run_lib(env, "one", [("0", src)], limit=limit)
     if err or "0" not in recs:
         return "inconclusive", "library harness failed"
-    fname, rc, so, se = run_cli(mode, src, env.work, "one", limit=limit or 25)
+    fname, rc, so, se = run_cli(mode, src, env.work, "one", limit=limit or 25, cuts=cuts)
     return judge_cli(recs["0"], mode, fname or "", rc, so, se)
 
 
@@ -554,6 +677,233 @@ def shrink_program(env, src, mode, budget=90.0):
 
     small = common.ddmin_lines(lines, pred, keep_head=0)
     return "\n".join(small) + "\n"
+
+
+# ------------------------------------------------------------------------------------------
+# input-mode equivalence on large scripts, and every path through run_source
+
+CHARS = [("é").encode(), ("日").encode(), ("\U0001f600").encode()]     # 2, 3, 4 bytes
+INVALID = [b"\x80", b"\xc3", b"\xe2\x82", b"\xf0\x9f\x98", b"\xff", b"\xc0\x80", b"\xed\xa0\x80", b"\xf4\x90\x80\x80"]
+
+
+def stdin_block():
+    """Size of run_stdin's read block, read from the source under test."""
+    try:
+        b = gen_scratch_module().stdin_reader()[0]
+    except Exception:                          # noqa
+        b = 0
+    return b if b > 0 else 8192
+
+
+def build_script(pos, seq, where, nl, final_nl=True, tail=True):
+    """A program whose byte sequence `seq` starts exactly at byte offset `pos`, inside a string
+    literal that is printed (where='string') or inside a comment (where='comment').  nl is the
+    line ending.  Prints "start", the string, and a running total, so that a run that stops early
+    or skips something is visible."""
+    out = [b'shout("start")', b"make total get 0"]
+    size = sum(len(x) + len(nl) for x in out)
+    prefix = b'shout("caf' if where == "string" else b"# caf"
+    k = 0
+    while True:
+        line = b"total get total add %d" % (k % 7)
+        if size + len(line) + len(nl) > pos - len(prefix) - 40:
+            break
+        out.append(line)
+        size += len(line) + len(nl)
+        k += 1
+    need = pos - size - len(prefix) - len(nl)          # one padding comment line
+    assert need >= 1, (pos, size)
+    out.append(b"#" + b"x" * (need - 1))
+    line = prefix + seq + (b'")' if where == "string" else b"")
+    out.append(line)
+    if tail:
+        out.append(b"shout(total)")
+    data = nl.join(out) + (nl if final_nl else b"")
+    assert data[pos:pos + len(seq)] == seq, (pos, data[pos - 5:pos + 8])
+    return data
+
+
+def build_sized(total, nl, final_nl):
+    """A pure-ASCII program of exactly `total` bytes."""
+    out = [b'shout("start")', b"make total get 0"]
+    size = sum(len(x) + len(nl) for x in out)
+    last = b"shout(total)"
+    k = 0
+    while True:
+        line = b"total get total add %d" % (k % 5)
+        if size + len(line) + len(nl) > total - len(last) - 40:
+            break
+        out.append(line)
+        size += len(line) + len(nl)
+        k += 1
+    need = total - size - len(last) - len(nl) - (len(nl) if final_nl else 0)
+    out.append(b"#" + b"y" * (need - 1))
+    out.append(last)
+    data = nl.join(out) + (nl if final_nl else b"")
+    assert len(data) == total, (len(data), total)
+    return data
+
+
+def boundary_scripts(rng, block, tier):
+    """Valid and invalid scripts around every multiple k*block of the stdin read block:
+    2-, 3- and 4-byte characters at every offset across the boundary (and just before / after it),
+    in a printed string or in a comment, LF / CRLF / no final newline; pure-ASCII sizes
+    k*block-1, k*block, k*block+1; a character ending exactly at end of input; the same places
+    with byte sequences that are not UTF-8.  Returns [(name, bytes, valid, cuts)]."""
+    ks = [1, 2] if tier == "quick" else [1, 2, 3, 4, 8]
+    endings = [(b"\n", True), (b"\r\n", True), (b"\n", False)]
+    out = []
+    n = 0
+    for k in ks:
+        for ch in CHARS:
+            for j in range(0, len(ch) + 1):
+                pos = k * block - j
+                nl, fin = endings[n % 3]
+                where = "string" if n % 2 == 0 else "comment"
+                n += 1
+                data = build_script(pos, ch, where, nl, fin)
+                # pipe mode: cut inside the character as well as at a few arbitrary places
+                cuts = [pos + 1, pos + len(ch) - 1, rng.randint(1, len(data) - 1), k * block // 2]
+                out.append(("k%d-w%d-j%d-%s%s" % (k, len(ch), j, where, "-crlf" if nl == b"\r\n" else ("" if fin else "-nofinal")),
+                            data, True, cuts))
+        for d in (-1, 0, 1):
+            nl, fin = endings[n % 3]
+            n += 1
+            out.append(("k%d-size%+d" % (k, d), build_sized(k * block + d, nl, fin), True, [k * block - 1, k * block // 3]))
+        ch = CHARS[k % 3]
+        data = build_script(k * block - len(ch), ch, "comment", b"\n", final_nl=False, tail=False)   # input ends with the character
+        assert len(data) == k * block
+        out.append(("k%d-char-at-eof" % k, data, True, [k * block - 1]))
+    bad = INVALID if tier != "quick" else INVALID[:6]
+    for k in ks[:2] if tier == "quick" else ks:
+        for t, seq in enumerate(bad):
+            for j in (0, 1):
+                if tier == "quick" and (t + j + k) % 2:
+                    continue
+                where = "string" if (t + j) % 2 == 0 else "comment"
+                data = build_script(k * block - j, seq, where, b"\n")
+                out.append(("k%d-invalid%d-j%d-%s" % (k, t, j, where), data, False, [k * block - j, k * block]))
+    # a leading byte and nothing after it; an invalid byte in a tiny script
+    out.append(("truncated-at-eof", build_script(block - 1, b"\xc3", "comment", b"\n", final_nl=False, tail=False), False, [block - 1]))
+    out.append(("tiny-invalid", b'shout("start")\nshout("a\xffb")\n', False, [18]))
+    return out
+
+
+BIG_MODES = ("file", "eval", "stdin", "redirect", "pipe")
+
+
+def stream_invalid(env, scripts, res):
+    """Scripts that are not UTF-8: every input mode must refuse them — non-zero exit status,
+    nothing of the program printed, no crash — whatever the position of the bad bytes."""
+    wd = os.path.join(env.work, "cli")
+    os.makedirs(wd, exist_ok=True)
+    jobs = [(n, m) for n in range(len(scripts)) for m in BIG_MODES]
+
+    def one(job):
+        n, m = job
+        return job, run_cli(m, scripts[n][1], wd, "bad%d_%s" % (n, m[0]), cuts=scripts[n][3])
+
+    with ThreadPoolExecutor(max_workers=8) as ex:
+        results = list(ex.map(one, jobs))
+    stats = {"rejected": 0, "fail": 0}
+    for (n, m), (fname, rc, so, se) in results:
+        name, data, _, cuts = scripts[n]
+        res["evaluations"] += 1
+        why = None
+        if rc == 124:
+            continue
+        if rc == 0:
+            why = "accepted (exit status 0)"
+        elif rc not in (1, 2):
+            why = "crashed (status %d)" % rc
+        elif so:
+            why = "printed %r before refusing" % so[:80]
+        if why is None:
+            stats["rejected"] += 1
+            res["_nontrivial"].add("bad:" + name)
+            continue
+        stats["fail"] += 1
+        if sum(1 for f in res["failures"] if f.get("stream") == "invalid-utf8-input") < 4:
+            res["failures"].append({"key": "invalid-utf8:%s:%s" % (name, m), "stream": "invalid-utf8-input",
+                                    "case": {"hex": data.hex(), "mode": m, "cuts": cuts, "name": name},
+                                    "observed": "input that is not UTF-8 is %s in %s mode; stderr=%r" % (why, m, se[-200:])})
+    res["extra"]["invalid_utf8_inputs"] = stats
+
+
+def analysis_caps():
+    """max_summary_events / max_functions of DEFAULT_CAPS, read from the source under test."""
+    try:
+        txt = open(os.path.join(common.REPO, "src", "analysis", "limits.rs")).read()
+        m = re.search(r"DEFAULT_CAPS\s*:\s*AnalysisCaps\s*=\s*AnalysisCaps\s*\{(.*?)\};", txt, re.S)
+        caps = {k: int(v.replace("_", "")) for k, v in re.findall(r"(\w+)\s*:\s*([\d_]+)", m.group(1))}
+        return caps.get("max_summary_events", 16777216), caps.get("max_functions", 16384)
+    except Exception:                          # noqa
+        return 16777216, 16384
+
+
+def many_functions(n):
+    """n called one-line functions: with n just above sqrt(max_summary_events) (or above max_functions)
+    the resolver gives up its analyses — one warning, no optimisation plan — and the program must
+    still run."""
+    lines = ["do f%x() start return %d end" % (i, i % 10) for i in range(n)]
+    lines.append('shout("first")')
+    lines.append("shout(f1() add f%x() add f%x())" % (n // 2, n - 1))
+    lines.append("make acc get 0")
+    lines.append("make i get 0")
+    lines.append("jasi (i small pass 5) start")
+    lines.append("    acc get acc add f%x() add i" % (n - 2))
+    lines.append("    i get i add 1")
+    lines.append("end")
+    lines.append("shout(acc)")
+    lines.append('shout("done")')
+    return "\n".join(lines) + "\n"
+
+
+PATH_CORPUS = [
+    # plan with pruned statements and a pruned function, warnings, output
+    ("prunes", 'do never() start\n    return 1\nend\nmake a get 1\na get 2\nmake b get 5\nshout(b)\ndo f() start\n    return 3\n    shout("unreachable")\nend\nshout(f())\n'),
+    # warnings only, nothing printed
+    ("warnonly", 'make unused get 1\n'),
+    # clean: a plan with nothing to prune, no diagnostics
+    ("clean", 'make t get 0\nmake i get 0\njasi (i small pass 4) start\n    t get t add i\n    i get i add 1\nend\nshout(t)\n'),
+    # runtime error after output and after a warning
+    ("rterr", 'make unused get 1\nshout("one")\nmake z get 0\nshout(4 divide z)\nshout("never")\n'),
+    # resolver error together with warnings
+    ("reserr", 'make unused get 1\nshout(nobody)\n'),
+    # non-ASCII in output, comments and diagnostics
+    ("utf8", '# café 日本 \U0001f600\nmake s get "café 日本 \U0001f600"\nshout(s)\nshout(s.len())\nshout(naïve)\n'),
+]
+
+
+def garbage_programs():
+    """Tiny live data, a lot of per-iteration garbage: about three times the CLI's scratch capacity
+    (read from main.rs) in temporaries that only the frame arena's resets reclaim.  A wiring that
+    loses the frame arena, or whose frame resets stop working, runs out of arena space here."""
+    try:
+        gs = gen_scratch_module()
+        raw = gs.read("src/bin/naija/main.rs")
+        m = re.search(r'target_pointer_width\s*=\s*"64"\)\]\s*const\s+\w+\s*:\s*usize\s*=\s*([^;]+);', raw)
+        cap = gs.const_expr(m.group(1))
+    except Exception:                          # noqa
+        cap = 256 << 20
+    iters = max(3 * cap // (2 * 65536), 64)
+    head = 'make big get "x"\nmake k get 0\njasi (k small pass 16) start\n    big get big add big\n    k get k add 1\nend\nmake total get 0\nmake i get 0\n'
+    a = head + 'jasi (i small pass %d) start\n    total get total add (big add "y").len()\n    i get i add 1\nend\nshout(big.len())\nshout(total)\n' % iters
+    b = head + 'jasi (i small pass %d) start\n    total get total add ("{big}!").len() add ("<" add big).len()\n    i get i add 1\nend\nshout(total)\n' % (iters // 2)
+    return [("garbage", a), ("garbage", b)]
+
+
+def path_programs(env, res):
+    """Programs for the paths through run_source that random programs do not reach: the resolver
+    leaves no plan (an analysis cap is exceeded)."""
+    cap_s, cap_f = analysis_caps()
+    out = garbage_programs()
+    n1 = int(cap_s ** 0.5) + 12
+    if n1 <= 20000:
+        out.append(("noplan", many_functions(n1)))
+    if env.tier != "quick" and cap_f + 1 <= 40000:
+        out.append(("noplan", many_functions(cap_f + 1)))
+    return out
 
 
 # ------------------------------------------------------------------------------------------
@@ -1008,18 +1358,35 @@ def correspond(env, searching=False, model=True):
             names = names[::3]
         for fn in names:
             progs.append(("stress", open(os.path.join(sdir, fn)).read()))
+    progs += PATH_CORPUS
     progs += gen_programs(env.rng, max(n_prog - len(progs), 10))
+    n_small = len(progs)
+    # large scripts: only through the CLI stream (all five input modes), not through the playground
+    block = stdin_block()
+    scripts = boundary_scripts(env.rng, block, env.tier)
+    extra_cuts = {}
+    for name, data, valid, cuts in scripts:
+        if valid:
+            extra_cuts[len(progs)] = cuts
+            progs.append(("boundary", data.decode("utf-8")))
+    progs += path_programs(env, res)
     kinds = {}
     for k, _ in progs:
         kinds[k] = kinds.get(k, 0) + 1
     res["extra"]["program_kinds"] = kinds
-    recs = stream_cli(env, progs, res, searching)
+    res["extra"]["stdin_read_block"] = block
+    recs = stream_cli(env, progs, res, searching, extra_cuts)
+    stream_invalid(env, [x for x in scripts if not x[2]], res)
+    progs = progs[:n_small]
     stream_sequences(env, progs, res, n_seq, seq_len, recs)
     stream_scratch(env, res, n_hist, model, searching)
     res["distinct_nontrivial"] = len(res.pop("_nontrivial"))
-    res["rule"] = ("(a) every program x {file, --eval, stdin}: stdout bytes and exit status of target/debug/naija vs the library pipeline with "
-                   "separate arenas, status 0 iff no error diagnostic; non-trivial = distinct program that reached the runtime and printed or "
-                   "failed there. (b) sequences of programs through the playground entry-point replica in one process vs each program alone "
+    res["rule"] = ("(a) every program x {file, --eval, stdin by one write, stdin redirected from a file, stdin piped in pieces cut inside "
+                   "characters}: stdout bytes and exit status of target/debug/naija vs the library pipeline with separate arenas, status 0 iff "
+                   "no error diagnostic; includes scripts around every multiple of the stdin read block with 2-/3-/4-byte characters at every "
+                   "offset across it, non-UTF-8 inputs (all modes must refuse), one program per path through run_source (no plan / prunes / "
+                   "warnings only / errors / runtime error); non-trivial = distinct program that reached the runtime and printed or failed there, "
+                   "or distinct refused non-UTF-8 input. (b) sequences of programs through the playground entry-point replica in one process vs each program alone "
                    "(results, printed bytes, both arenas back at offset 0/commit 0); non-trivial = distinct sequence mixing accepted and "
                    "failing programs. (c) scratch-API op histories, implementation vs extracted Scratch.v (borrow target, saved offset, "
                    "returned blocks, offsets, commits, live counts, checksums) with a byte-for-byte shadow ledger on the implementation and "
@@ -1033,9 +1400,14 @@ def replay(env, payload):
     common.build_naija()
     case = payload.get("case") or (payload.get("disagreements") or [{}])[0]
     inner = case.get("case", {})
-    if "src" in inner and case.get("stream") == "cli-vs-library":
-        v, detail = check_one_program(env, inner["src"], inner.get("mode", "eval"))
-        print("program:\n" + inner["src"])
+    if case.get("stream") == "invalid-utf8-input":
+        data = bytes.fromhex(inner["hex"])
+        fname, rc, so, se = run_cli(inner["mode"], data, env.work, "one", cuts=inner.get("cuts"))
+        print("input %s (%d bytes, not UTF-8), %s mode: exit status %d, stdout %r, stderr %r" % (inner.get("name"), len(data), inner["mode"], rc, so[:200], se[-200:]))
+        bad = rc not in (1, 2) or bool(so)
+    elif "src" in inner and case.get("stream") == "cli-vs-library":
+        v, detail = check_one_program(env, inner["src"], inner.get("mode", "eval"), cuts=inner.get("cuts"))
+        print("program (%d bytes):\n%s" % (len(inner["src"].encode()), inner["src"] if len(inner["src"]) < 3000 else inner["src"][:600] + "\n...\n" + inner["src"][-600:]))
         print("verdict: %s %s" % (v, detail))
         bad = v == "fail"
     elif "src" in inner and case.get("stream") == "library-output-record":
